@@ -18,6 +18,8 @@ import vplib as V
 PROP_FILES = [os.path.join(V.PROPS, "C13.v")]
 RTOL_MODEL = 1e-9
 RTOL_B, RTOL_C, RTOL_DT = 2e-5, 3e-3, 2e-5
+# model classes for which the complete limit theorem (C13_second_virial_limit_of_program) is instantiated on the unchanged tree
+EXPECT_LIMIT_THEOREM = {"PengRobinson", "PcSaft", "GcPcSaft", "Pets"}
 
 
 def by_prog(tags, key):
@@ -76,6 +78,7 @@ def run(ctx):
     stats = {"model_vs_api": 0, "oracle": 0, "worst_model": 0.0, "worst_oracle_B": 0.0, "same_program": 0,
              "contributions_compared": 0}
     samples = []
+    limit_theorem = {}
 
     def report(cfg, kind, contribution, what, detail, found=True):
         """a violation of the property for this configuration, unless it is a listed known finding"""
@@ -108,6 +111,19 @@ def run(ctx):
         g2, g3, g2t = by_prog(tags, "G2").get("P"), by_prog(tags, "G3").get("P"), by_prog(tags, "G2T").get("P")
         g2c, f2c = by_prog(tags, "G2C").get("P"), by_prog(tags, "F2C").get("P")
         same = by_prog(tags, "SAMEPROG").get("P")
+        vobl = by_prog(tags, "VOBL").get("P")
+        if cfg["enclosed"]:
+            inst = isinstance(vobl, list) and len(vobl) > 0 and all(x is True for x in vobl)
+            limit_theorem[name] = inst
+            if inst:
+                obligations += len(vobl)
+                discharged += len(vobl)
+            elif classify(cfg) in EXPECT_LIMIT_THEOREM:
+                obligations += len(cfg["temperatures"])
+                V.violation(ctx, "%s: the limit theorem is no longer instantiated (virial_obligations = %s): the zero-density program is "
+                            "not defined on a neighbourhood of rho = 0, or g(0), g'(0) are not zero" % (name, vobl),
+                            {"broken": "gen/C13/%s.v: virial_obligations (C13_second_virial_limit_of_program)" % name, "config": name,
+                             "values": str(vobl), "oracle": cfg["oracle"]}, found_input=False)
         if same is True:
             stats["same_program"] += 1
         for ti, t in enumerate(cfg["temperatures"]):
@@ -197,6 +213,7 @@ def run(ctx):
         "worst_discrepancy_in_units_of_tolerance": stats["worst_model"],
         "configurations_where_zero_density_path_is_the_same_program": stats["same_program"],
         "contribution_limits_compared": stats["contributions_compared"],
+        "limit_theorem_instantiated": limit_theorem,
         "oracle_evaluations": stats["oracle"], "oracle_worst_relative_B": stats["worst_oracle_B"],
         "samples": samples,
         "rule": "per configuration one composition, 2 (quick) / 4 (thorough) temperatures in [0.5,3] T_scale; programs traced at rho = 0 and at 1e-3 rho_max",
